@@ -12,7 +12,11 @@
 use std::io::{BufRead, Write};
 use std::panic::{catch_unwind, AssertUnwindSafe};
 
+mod alloc_count;
 mod ops;
+
+#[global_allocator]
+static GLOBAL: alloc_count::Counting = alloc_count::Counting;
 #[cfg(feature = "serde-suite")]
 mod ops_serde;
 
@@ -70,6 +74,7 @@ fn main() {
                 let line = line.unwrap();
                 let toks = parse_line(&line);
                 let r = catch_unwind(AssertUnwindSafe(|| ops::dispatch(&toks)));
+                alloc_count::off();
                 match r {
                     Ok(s) => writeln!(out, "{}", s).unwrap(),
                     Err(e) => {
